@@ -372,6 +372,13 @@ func (c *EvalCtx) evalField(x Term, name string, e Expr) Term {
 			}
 		}
 		if !ok {
+			// unexported field of another package promoted through embedded structs
+			if path := findFieldPath(x.T, name, 0); path != nil {
+				index = path
+				ok = true
+			}
+		}
+		if !ok {
 			fail("no field %s in %v (%s)", name, x.T, e.String())
 		}
 	}
@@ -384,6 +391,30 @@ func (c *EvalCtx) evalField(x Term, name string, e Expr) Term {
 		cur = v.fieldRead(c, cur.S, named, st, idx)
 	}
 	return cur
+}
+
+// findFieldPath finds a (possibly promoted, possibly unexported) field by name, ignoring package boundaries.
+func findFieldPath(t types.Type, name string, depth int) []int {
+	if depth > 4 {
+		return nil
+	}
+	st, _ := derefStruct(t)
+	if st == nil {
+		return nil
+	}
+	for i := 0; i < st.NumFields(); i++ {
+		if st.Field(i).Name() == name {
+			return []int{i}
+		}
+	}
+	for i := 0; i < st.NumFields(); i++ {
+		if st.Field(i).Embedded() {
+			if p := findFieldPath(st.Field(i).Type(), name, depth+1); p != nil {
+				return append([]int{i}, p...)
+			}
+		}
+	}
+	return nil
 }
 
 // fieldRead reads field idx of struct object ref (Int term). Struct-valued fields yield the embedded ref.
@@ -445,6 +476,9 @@ func (v *Verifier) fieldHeapName(n *types.Named, f *types.Var) string {
 	name := "F_" + typeShort(n) + "_" + f.Name()
 	if isRefType(f.Type()) && namedString(f.Type()) != "time.Time" {
 		v.heapIsRef[name] = "field"
+		if _, isPtr := f.Type().Underlying().(*types.Pointer); isPtr && f.Embedded() {
+			v.embeddedPtr[name] = true
+		}
 	}
 	return name
 }
@@ -707,6 +741,18 @@ func (c *EvalCtx) evalCall(e *ECall) Term {
 	case "allocated":
 		x := arg(0)
 		return mkTerm("(and (> "+x.S+" 0) (< "+x.S+" "+c.heapVar("$alloc", sInt)+"))", sBool, nil)
+	case "ptr":
+		// ptr(T, e): the reference e viewed as a *T (typing only)
+		id, ok := e.Args[0].(*EIdent)
+		if !ok {
+			fail("ptr needs a type name")
+		}
+		pt, _ := v.resolveType("*"+id.Name, c.pkg)
+		x := arg(1)
+		if x.Sort != sInt || pt == nil {
+			fail("ptr(%s, ...) of a non-reference", id.Name)
+		}
+		return mkTerm(x.S, sInt, pt)
 	case "emptyset":
 		// emptyset(T)
 		id, ok := e.Args[0].(*EIdent)
@@ -799,7 +845,25 @@ func (v *Verifier) declareGhostFunc(gf *GhostFunc, pkg *types.Package) {
 	}
 	_, rs := v.resolveType(gf.Result, pkg)
 	if gf.Interp != "" {
-		v.decls.interp[key] = "(define-fun " + gf.Name + " (" + strings.Join(names, " ") + ") " + rs + " " + gf.Interp + ")"
+		body := gf.Interp
+		if strings.HasPrefix(body, "expr:") {
+			// interpretation given as a contract expression over the parameters
+			e, err := parseExpr(strings.TrimSpace(body[5:]))
+			if err != nil {
+				fail("interp of %s: %v", gf.Name, err)
+			}
+			ic := &EvalCtx{v: v, pkg: pkg, vars: map[string]Term{}}
+			for i, p := range gf.Params {
+				pt, _ := v.resolveType(p.Type, pkg)
+				ic.vars[p.Name] = mkTerm(p.Name, ps[i], pt)
+			}
+			t, err := ic.Eval(e)
+			if err != nil {
+				fail("interp of %s: %v", gf.Name, err)
+			}
+			body = t.S
+		}
+		v.decls.interp[key] = "(define-fun " + gf.Name + " (" + strings.Join(names, " ") + ") " + rs + " " + body + ")"
 	}
 	v.decls.add(key, "(declare-fun "+gf.Name+" ("+strings.Join(ps, " ")+") "+rs+")")
 }
